@@ -1,6 +1,6 @@
 //! C14 — truncated input and failed writes are always reported, never accepted (fault enumeration).
 
-use crate::anyval::{val_spec, Erased, ValSpec};
+use crate::anyval::{val_spec, ValSpec};
 use crate::engine::{catch, CaseResult, Fail, Prop, Report, Tier};
 use crate::props::c06::{ser_bytes, ChunkedReader};
 use crate::util::{hash_of, mix};
